@@ -446,6 +446,6 @@ RulesOf(p) ==
     [] p = "C10" -> {"C10_dealt_as_prescribed", "C10_burns"}
     [] p = "C12" -> {"C12_auto_decision"}
     [] p = "C13" -> {"C13_opener"}
-    [] p = "C14" -> {"C14_offer", "C14_consensus", "C14_once", "C14_boards"}
+    [] p = "C14" -> {"C14_offer", "C14_consensus", "C14_once", "C14_boards", "C02_award"}     \* (even division between the boards)
     [] OTHER -> {}
 =============================================================================
